@@ -35,7 +35,7 @@ _cache = {}
 
 
 def ncases(tier):
-    return 320 if tier == "quick" else 6000
+    return 960 if tier == "quick" else 12000
 
 
 def _cached(key, fn):
